@@ -260,6 +260,9 @@ def run_qos(res, standalone=False):
     tr = vlib.run_translator("qos")
     gen_status = tr["files"].get("Data/gen/QosGen.v", {})
     st["translator"] = {"Data/gen/QosGen.v": gen_status, "shapes": tr["shapes"]}
+    if gen_status.get("status") != "ok":
+        res.notes.append("qos translator met a shape it does not know (%s): the affected functions fall back to the hand model; "
+                         "the window clauses then stand on the hand model + the differential correspondence alone" % gen_status.get("detail", "")[:300])
     pr = vlib.coq_check_props("Props/C06_qos.v", runners=["Run/QosRun.v"])
     st["proof"] = {k: pr.get(k) for k in ("ok", "obligations", "discharged", "axioms", "closed", "theorems", "failed_file", "error", "runners_ok")}
     if standalone:
